@@ -145,7 +145,18 @@ def _binds_name(n, name: str) -> bool:
 
 
 def run_rule(ctx: Ctx, rd: RuleDef) -> List[Ob]:
-    obs = rd.fn(ctx)
+    try:
+        obs = rd.fn(ctx)
+    except AnalysisError:
+        raise
+    except RecursionError:
+        raise
+    except Exception as e:  # noqa: BLE001 - a rule that trips over an unexpected shape cannot decide
+        import traceback
+
+        tb = traceback.extract_tb(e.__traceback__)
+        where = f"{tb[-1].filename.split('/')[-1]}:{tb[-1].lineno}" if tb else "?"
+        raise AnalysisError(f"rule {rd.name} could not analyse this shape ({type(e).__name__}: {e} at {where})") from e
     n = sum(1 for o in obs if not o.note)
     if n < rd.floor:
         raise AnalysisError(
